@@ -23,8 +23,8 @@ RULE = (
     "execution completed, the system has bilateral constraints and the configuration moved"
 )
 ASSUMPTIONS = [
-    "solver tolerances are tightened by the harness (newton/fixed-point atol=rtol=1e-11; ScipyDAE rtol=1e-6, atol=1e-8; ScipyIVP rtol=1e-9, "
-    "atol=1e-11) so that 'within solver tolerance' is sharp: |g| <= 1e-8, |g_dot| <= 1e-9 (measured noise <= 5e-12 resp. 1e-14)",
+    "solver tolerances are tightened by the harness (newton/fixed-point atol=rtol=1e-11, DualStormerVerlet 1e-10; ScipyDAE rtol=1e-6, atol=1e-8; ScipyIVP rtol=1e-9, "
+    "atol=1e-11) so that 'within solver tolerance' is sharp: |g| <= 1e-8, |g_dot| <= 1e-9 (measured noise <= 5e-11 resp. 1e-14)",
     "ScipyDAE 'order of its requested tolerance' is read as K_DAE * (atol + rtol * max(1, |q|_inf, |u|_inf)) at every output row and 'without drift' "
     "as: max over the second half of the rows <= 10 x max over the first half + 10 x that tolerance scale",
     "Moreau's midpoint is recomputed as q_n + dt/2 * q_dot(t_n, q_n, u_n) from the stored (normalised) rows, time t_n + dt/2, velocity u_{n+1}",
@@ -39,6 +39,7 @@ MIN_OUTCOMES = 6
 CASE_TIMEOUT = 900
 
 SOLVER_TOL = 1e-11
+DSV_TOL = 1e-10  # DualStormerVerlet scales the percussion tolerance by dt/2: at 1e-11 and dt=1e-3 its iteration stalls on round-off
 TOL_G = 1e-8
 TOL_GDOT = 1e-9
 TOL_MID = 1e-9
@@ -78,11 +79,11 @@ def check(case):
 
     scen, spring, level, solver, dt, N = case["scen"], case["spring"], case["level"], case["solver"], case["dt"], case["N"]
     letters = {"scen": scen, "spring": spring, "level": level, "solver": solver, "dt": dt}
-    opts = integ.options(SOLVER_TOL)
-    system = integ.build(scen, spring, level, seed=case.get("seed", 0), opts=opts)
+    tol = DSV_TOL if solver.startswith("DSV") else SOLVER_TOL
+    system = integ.build(scen, spring, level, seed=case.get("seed", 0), opts=integ.options(tol))
     outcome = []
     try:
-        sol = integ.run(system, solver, dt, N, opts=integ.options(SOLVER_TOL), dae_tol=DAE_TOL, ivp_tol=IVP_TOL)
+        sol = integ.run(system, solver, dt, N, opts=integ.options(tol), dae_tol=DAE_TOL, ivp_tol=IVP_TOL)
     except Exception as e:  # noqa: BLE001
         if _is_giveup(e):
             return {"fails": [], "nontrivial": False, "evals": 0, "states": 0, "transitions": 0, "outcome": f"{solver}:gave-up",
@@ -180,5 +181,19 @@ def check(case):
 
 
 def extra_coverage(results, tier, seed):
-    return {"horizon_steps": NSTEPS[tier], "step_sizes": DTS[tier], "solver_tolerance": SOLVER_TOL,
+    done, total = {}, {}
+    for r in results:
+        for oc in (r.get("outcome") or []) if isinstance(r.get("outcome"), list) else [r.get("outcome")]:
+            if not oc or ":" not in oc:
+                continue
+            s, what = oc.split(":", 1)
+            total[s] = total.get(s, 0) + 1
+            if what != "gave-up":
+                done[s] = done.get(s, 0) + 1
+    # vacuity guard per solver: a solver whose executions mostly give up has not been checked at all
+    vac = [s for s in SOLVERS if done.get(s, 0) < 0.6 * max(total.get(s, 0), 1)]
+    if vac:
+        raise RuntimeError(f"vacuous: solvers {vac} completed fewer than 60% of their executions: {done} of {total}")
+    return {"horizon_steps": NSTEPS[tier], "step_sizes": DTS[tier], "solver_tolerance": SOLVER_TOL, "dsv_tolerance": DSV_TOL,
+            "executions_completed_per_solver": done, "executions_per_solver": total,
             "tolerances": {"g": TOL_G, "g_dot": TOL_GDOT, "moreau_midpoint": TOL_MID, "quaternion": TOL_QUAT, "dae_factor": K_DAE, "ivp_relative": TOL_IVP}}
